@@ -312,7 +312,10 @@ class Report:
 
     def finish(self, level="proof"):
         wall = time.time() - self.t0
-        os.makedirs(os.path.join(VERIF, "evidence", "replays"), exist_ok=True)
+        # evidence of a run against another tree (VERIF_REPO: a seeded change, a reverted fix) is an experiment's
+        # record: it goes to the shadow of that tree and never replaces /verif/evidence/<id>.json
+        EV = os.path.join(ROOT, "evidence")
+        os.makedirs(os.path.join(EV, "replays"), exist_ok=True)
         for k, (f, what, replay) in sorted(self.known_hit.items()):
             print("KNOWN-FINDING: property=%s %s -- %s" % (self.pid, k, f.get("what", what)))
         seen = set()
@@ -326,7 +329,7 @@ class Report:
             seen.add(key)
             nviol += 1
             h = hashlib.sha1((key + json.dumps(replay, sort_keys=True, default=str)).encode()).hexdigest()[:10]
-            rp = os.path.join(VERIF, "evidence", "replays", "%s-%s.json" % (self.pid, h))
+            rp = os.path.join(EV, "replays", "%s-%s.json" % (self.pid, h))
             json.dump(dict(property=self.pid, key=key, what=what, found_failing_input=found, replay=replay,
                            seed=self.seed, tier=self.tier), open(rp, "w"), indent=1, default=str)
             print("VIOLATION property=%s replay=%s %s%s" % (self.pid, rp, what.replace("\n", " ")[:300],
@@ -336,8 +339,8 @@ class Report:
         ev = dict(property_id=self.pid, tier=self.tier, seed=self.seed, level=level, coverage=cov,
                   assumptions=self.assumptions, wall_s=round(wall, 2), violations=nviol)
         # a replay of one recorded input must not replace the evidence of the last full run
-        out = os.path.join(VERIF, "evidence", "replays", self.pid + "-last-replay.json") if getattr(self, "is_replay", False) \
-            else os.path.join(VERIF, "evidence", self.pid + ".json")
+        out = os.path.join(EV, "replays", self.pid + "-last-replay.json") if getattr(self, "is_replay", False) \
+            else os.path.join(EV, self.pid + ".json")
         json.dump(ev, open(out, "w"), indent=1, default=str)
         sys.stdout.flush()
         return 1 if nviol else 0
